@@ -1375,6 +1375,17 @@ def gen_C09(rng, tier):
 
 def gen_C10(rng, tier):
     out = []
+    # the read calls append to the caller's vectors
+    for p in (0, 4):
+        h = Hist(p)
+        h.new()
+        h.pushrun(1000, 7, 60, 3)
+        h.pushrun(h.last() + 100000, 7, 30, 4)
+        for pre in (1, 4, 30):
+            for n in (1, 2, 7, 45):
+                h.op(f"read_n n={n} s=U e=U pre={pre}")
+                h.op(f"read_n n={n} s=I:1100 e=I:{h.ts[-5]} pre={pre}")
+        out.append((f"prefilled-vectors-p{p}", h.script()))
     # very long ranges with a very small n: the bucket size exceeds 16 bits (several full sections)
     for p, count in ([(0, 200000)] if tier == "quick" else [(0, 200000), (4, 140000), (1, 330000)]):
         h = Hist(p)
